@@ -91,7 +91,7 @@ def _roots_and_patterns(db, chk, m):
         return NotImplemented
 
     I = Interp(db, call_hook=hook, decide=assume(("truthy", T.P("operator_name"))))
-    runs = I.explore(ref, lambda I: {"cls": Obj("cls", cls=(m, "CudaKernelAnalysis")), "t": Obj("t", attrs={"symbol_table": Obj("symtab")}), "operator_name": T.P("operator_name"),
+    runs = I.explore(ref, lambda I: {"cls": Obj("cls", cls=(m, "CudaKernelAnalysis")), "t": Obj("t", attrs={"symbol_table": Obj("symtab", cls=(db.mod("hta.common.trace_symbol_table"), "TraceSymbolTable"))}), "operator_name": T.P("operator_name"),
                                      "output_dir": "/out", "min_pattern_len": T.P("min_pattern_len"), "rank": T.P("rank"), "top_k": T.P("top_k"), "visualize": False})
     runs = [r for r in runs if r.raised is None and isinstance(r.ret, Frame) and r.ret.base == ("result",)]
     if len(runs) != 1:
@@ -105,7 +105,10 @@ def _roots_and_patterns(db, chk, m):
         return
     conj = set(rn.rows[1]) if rn.rows[0] == "and" else {rn.rows}
     cand = [c for c in conj if c[0] == "in" and c[1] == NAME]
-    okc = len(cand) == 1 and cand[0][2][0] == "comp" and "SYMIDX" in T.show(cand[0][2][3]) and T.find(cand[0][2][4], lambda s: s[0] == "in" and s[1] == T.P("operator_name")) != []
+    # [id for name, id in <the trace's symbol map>.items() if operator_name in name]  (the map reached through the getter or inside a helper of the table)
+    okc = len(cand) == 1 and cand[0][2][0] == "comp" and any(k_ in T.show(cand[0][2][3]) for k_ in ("SYMIDX", "sym_index", "sym_id_map")) and ".items" in T.show(cand[0][2][3]) \
+        and cand[0][2][2] == ("item", ("elem", cand[0][2][3]), 1) \
+        and T.find(cand[0][2][4], lambda s: s[0] == "in" and s[1] == T.P("operator_name") and s[2] == ("item", ("elem", cand[0][2][3]), 0)) != []
     chk.ob("C16.R1-root-selection", "candidates = events whose name id belongs to the symbols whose string CONTAINS operator_name", okc, where, found=[T.show(c)[:200] for c in cand],
            accepted="name.isin([idx for name, idx in sym_index.items() if operator_name in name])")
     if okc:
